@@ -409,6 +409,22 @@ pub fn run(ctx: &Ctx) -> Report {
         let cfg = structured_config(&mut rng);
         run_unpack(&mut rep, &cfg, true);
     }
+    // a config cut off by the end of the 32 bytes: seeds filling exactly 31 / 30 / 29 bytes followed by a
+    // lone kind byte (1..4) or a header without room for its operands
+    for _ in 0..ctx.scale(300, 3000) {
+        let used = *rng.pick(&[31usize, 31, 30, 29, 28]);
+        let ss = gen_list_total(&mut rng, used);
+        if let Ok(mut cfg) = Seed::pack_into_address_config(&ss) {
+            let total: usize = ss.iter().map(|s| math_size(s)).sum();
+            if total <= 31 {
+                for (k, x) in cfg[total..].iter_mut().enumerate() {
+                    *x = if k == 0 { rng.range(1, 4) as u8 } else { *rng.pick(&[0u8, 1, 2, 40]) };
+                }
+                rep.count("unpack:cut-off-at-the-end");
+                run_unpack(&mut rep, &cfg, true);
+            }
+        }
+    }
     // Seed::unpack on arbitrary short slices
     let n_uone = ctx.scale(400, 4000);
     for _ in 0..n_uone {
